@@ -73,6 +73,7 @@ def _isinstance(ex, st, args, kwargs, text):
             C.register(k)
             if z3.is_expr(v):
                 ex.isinst_cands.setdefault(v.get_id(), []).append(k)
+                ex.pinned.append(v)        # keeps the id from being reused by another term
     return [(st, ("val", V.VBool(ops.isinstance_formula(v, ts, C.subclass, C.cls_of))))]
 
 
@@ -316,7 +317,7 @@ def _m_get(ex, st, d, args, kwargs, node):
     res = ex.apply_op(st, alts, "dict.get")
     for s2, oc in res:
         if oc[0] == "val":
-            s2.derived.add(oc[1].get_id())
+            s2.derived.add(s2.pin(oc[1]).get_id())
             s2.pc.append(z3.Implies(V.dict_has(d, key), __import__("pyvc.jsonish", fromlist=["x"]).component(d, V.dict_get(d, key))))
     return res
 
